@@ -175,10 +175,19 @@ def table? : Sexp → Option Table
       | _ => none
   | _ => none
 
+partial def tyHasMiss : Ty → Bool
+  | .other s => s.startsWith "MISS"
+  | .fn r => tyHasMiss r
+  | .prod ts => ts.toList.any tyHasMiss
+  | _ => false
+
+/-- A query whose arguments already contain a miss marker is answered `none` (it is asked again, with real
+arguments, in the next round, once the harness has supplied the missing entry). -/
 def ask (tbl : Table) (q : Query) : Option TySet :=
-  match tbl.find? (fun e => e.1.same q) with
-  | some e => e.2
-  | none => some [.other ("MISS" ++ toString q.toSexp)]
+  if q.tys.any (fun o => match o with | some T => T.any tyHasMiss | none => false) then none
+  else match tbl.find? (fun e => e.1.same q) with
+    | some e => e.2
+    | none => some [.other ("MISS" ++ toString q.toSexp)]
 
 def replay (tbl : Table) : Resolver where
   value k r := ask tbl { kind := "value", strs := [k, r] }
